@@ -254,6 +254,7 @@ class Ctx:
         self.axioms: list = []
         self.nfresh = 0
         self.notes: list = []
+        self.over_approx = False
 
     # ---- solver access
     def _check(self, cond):
@@ -321,6 +322,7 @@ class Ctx:
                 t_feas = r != z3.unsat
                 if r == z3.unknown:
                     self.stats.unknown_feas += 1
+                    self.over_approx = True
                 elif r == z3.sat and ms is None:
                     ms = True
             if f_feas is None:
@@ -331,6 +333,7 @@ class Ctx:
                     f_feas = r != z3.unsat
                     if r == z3.unknown:
                         self.stats.unknown_feas += 1
+                        self.over_approx = True
                     elif r == z3.sat and ms is None:
                         ms = False
             if t_feas and f_feas:
@@ -406,6 +409,8 @@ def explore(fn, *, base=(), max_paths=20000, timeout_ms=10000, stats=None, deadl
         finally:
             Ctx.cur = None
         stats.paths += 1
+        if c.over_approx:
+            c.notes.append("over-approximated")
         results.append(PathResult(c.pc, c.axioms, out[0], out[1], c.decisions, c.notes))
     return results
 
